@@ -9,6 +9,7 @@ package scen
 // completely.
 
 import (
+	"sort"
 	"fmt"
 	"net/http"
 	"net/http/httptest"
@@ -141,6 +142,30 @@ func renderTemplate(tpl string, params map[string]any) string {
 	return tpl
 }
 
+var c11Partial zconst.LangMap
+
+// c11PartialLang: a user-supplied language that translates every second code of every type and has its own fallback text.
+func c11PartialLang() zconst.LangMap {
+	if c11Partial == nil {
+		c11Partial = zconst.LangMap{}
+		for dt, codes := range es.Map {
+			c11Partial[dt] = map[zconst.ZogIssueCode]string{}
+			var keys []string
+			for c := range codes {
+				keys = append(keys, string(c))
+			}
+			sort.Strings(keys)
+			for i, c := range keys {
+				if i%2 == 0 && c != "fallback" {
+					c11Partial[dt][zconst.ZogIssueCode(c)] = "xx: " + codes[zconst.ZogIssueCode(c)]
+				}
+			}
+			c11Partial[dt]["fallback"] = "xx: no translation for this " + string(dt) + " rule"
+		}
+	}
+	return c11Partial
+}
+
 func langTemplate(m zconst.LangMap, dtype, code string) string {
 	if t, ok := m[dtype][code]; ok {
 		return t
@@ -185,7 +210,8 @@ func c11ChooseConfig(x *mc.X, e *c11Entry) *c11Config {
 	if c.global == 1 {
 		c.defLang = []string{"en", "es"}[x.Choose(2, "defaultLang")]
 		// "es-MX" is installed under exactly that (mixed-case) name; "ES" and "fr" are not installed
-		c.ctxLang = []string{"", "en", "es", "fr", "es-MX", "ES"}[x.Choose(6, "ctxLang")]
+		// "xx" is an installed language whose table translates only part of the codes (the rest get ITS fallback text)
+		c.ctxLang = []string{"", "en", "es", "fr", "es-MX", "ES", "xx"}[x.Choose(7, "ctxLang")]
 		if x.Choose(2, "langKey") == 1 {
 			c.langKey = "idioma"
 		}
@@ -195,6 +221,9 @@ func c11ChooseConfig(x *mc.X, e *c11Entry) *c11Config {
 		}
 		if c.ctxLang == "es-MX" {
 			c.expLang = "es"
+		}
+		if c.ctxLang == "xx" {
+			c.expLang = "xx"
 		}
 	}
 	if !e.noOpts {
@@ -208,9 +237,9 @@ func (c *c11Config) install() {
 	if c.global == 1 {
 		var opts []func(*string)
 		if c.langKey != "lang" {
-			i18n.SetLanguagesErrsMap(map[string]zconst.LangMap{"en": en.Map, "es": es.Map, "es-MX": es.Map}, c.defLang, i18n.WithLangKey(c.langKey))
+			i18n.SetLanguagesErrsMap(map[string]zconst.LangMap{"en": en.Map, "es": es.Map, "es-MX": es.Map, "xx": c11PartialLang()}, c.defLang, i18n.WithLangKey(c.langKey))
 		} else {
-			i18n.SetLanguagesErrsMap(map[string]zconst.LangMap{"en": en.Map, "es": es.Map, "es-MX": es.Map}, c.defLang)
+			i18n.SetLanguagesErrsMap(map[string]zconst.LangMap{"en": en.Map, "es": es.Map, "es-MX": es.Map, "xx": c11PartialLang()}, c.defLang)
 		}
 		_ = opts
 	} else {
@@ -299,6 +328,9 @@ func c11CheckIssue(is *z.ZogIssue, wantDtype, wantCode, pkey string, pval any, c
 		m := en.Map
 		if cfg.expLang == "es" {
 			m = es.Map
+		}
+		if cfg.expLang == "xx" {
+			m = c11PartialLang()
 		}
 		want := renderTemplate(langTemplate(m, is.Dtype, is.Code), is.Params)
 		if want != "" && !strings.Contains(want, "{{") && is.Message != want {
